@@ -226,6 +226,9 @@ func famRandomCfg(tw *traceWriter, r *rand.Rand, n int, g genCfg) {
 			sch = genNode(r, g, 1, "")
 		}
 		c := &Case{ID: fmt.Sprintf("r%d", i), Mode: mode, Fe: "map", Schema: sch}
+		if mode == "parse" && i%3 == 0 {
+			c.Pre = 1
+		}
 		if mode == "parse" {
 			c.Input = genParseInput(r, sch, "map")
 			if c.Input.T == "missing" {
